@@ -581,6 +581,11 @@ fn val_family(o: &mut Out, r: &mut Rng, n: usize, batched: bool) {
     let (wa, mwa) = mk(r, a, b, Some(ps.clone()));
     o.op(&format!("{}.id-auditor", name), &format!("prove {} {} {}", name, wa, nonces(r, 2)));
     o.op(&format!("{}.id-auditor-m", name), &format!("mprove A {} {} {} {}", name, mwa, nonces(r, 2), zeros(k)));
+    // ... and every equation stays enforced on that statement: residuals on the masking commitments (in particular
+    // on the auditor's own Y, whose equation reads 0 = c*0 + Y)
+    for v in residual_vectors(k) {
+        o.op(&format!("{}.id-auditor-residual", name), &format!("mprove R {} {} {} {}", name, mwa, nonces(r, 2), offsets(&v, &rp)));
+    }
     // identity non-auditor key: refused
     for i in 0..(n - 1) {
         let mut ps: Vec<RistrettoPoint> = (0..n).map(|_| kp(r).p).collect();
@@ -1084,6 +1089,42 @@ pub fn gen_c20(o: &mut Out, tier: &str, seed: u64) {
         bad(o, &mut r, "cap.claimed-at-cap", "cap", f.wit(), 10);
         let mut f = cap_at(&mut r, 1_000_000, 400, 3, 7); f.cm += rp(&mut r);
         bad(o, &mut r, "cap.percentage-at-cap", "cap", f.wit(), 10);
+        // commitments and openings reused between the slots (jointly invalid: each pair is self-consistent or equal
+        // to another slot, but does not open to the amount given for its own slot)
+        {
+            let mut f = cap_at(&mut r, 1_000_000, 400, 3, 7); f.cc = f.cd; f.rc = f.rd;
+            bad(o, &mut r, "cap.joint.claimed-is-delta-at-cap", "cap", f.wit(), 10);
+            let o9 = rand_scalar(&mut r);
+            let x9 = commit(&Scalar::from(999u64), &o9);
+            let mut f = cap_at(&mut r, 1_000_000, 400, 3, 100); f.cd = x9; f.rd = o9; f.cc = x9; f.rc = o9;
+            bad(o, &mut r, "cap.joint.bogus-pair-at-cap", "cap", f.wit(), 10);
+            let mut f = cap_below(&mut r, 2, 5, 100); f.cd = x9; f.rd = o9; f.cc = x9; f.rc = o9;
+            bad(o, &mut r, "cap.joint.bogus-pair-below-cap", "cap", f.wit(), 10);
+            let mut f = cap_at(&mut r, 1_000_000, 400, 3, 7); f.cc = f.cm; f.rc = f.rp;
+            bad(o, &mut r, "cap.joint.claimed-is-percentage", "cap", f.wit(), 10);
+            let mut f = cap_below(&mut r, 2, 5, 9); f.cd = f.cm; f.rd = f.rp;
+            bad(o, &mut r, "cap.joint.delta-is-percentage", "cap", f.wit(), 10);
+            let mut f = cap_below(&mut r, 2, 5, 9); f.cm = f.cc; f.rp = f.rc;
+            bad(o, &mut r, "cap.joint.percentage-is-claimed", "cap", f.wit(), 10);
+            // the honest coincidences are fine: claimed == delta (same commitment and opening) below the cap; pct == delta
+            let mut f = cap_below(&mut r, 2, 5, 9); f.cc = f.cd; f.rc = f.rd;
+            good(o, &mut r, "cap.joint.ok-claimed-is-delta", "cap", f.wit(), 10);
+            let mut f = cap_below(&mut r, 4, 5, 4); f.cd = f.cm; f.rd = f.rp; f.cc = f.cm; f.rc = f.rp;
+            good(o, &mut r, "cap.joint.ok-all-equal", "cap", f.wit(), 10);
+        }
+        // equality constructors: the two sides exchanged or reused
+        {
+            let a = amount(&mut r);
+            let mut f = ctct_st(&mut r, a, a.wrapping_add(1));
+            f.c2 = f.c1; f.d2 = f.d1;           // second ciphertext := first (under key 1), opening of the old second
+            bad(o, &mut r, "ctct.joint.second-is-first", "ctct", f.wit(), 3);
+            let mut f = ctct_st(&mut r, a, a);
+            std::mem::swap(&mut f.c1, &mut f.c2); std::mem::swap(&mut f.d1, &mut f.d2);
+            bad(o, &mut r, "ctct.joint.exchanged", "ctct", f.wit(), 3);
+            let mut f = ctcmt_st(&mut r, a, a.wrapping_add(1));
+            f.cm = f.c;                          // commitment := the ciphertext's commitment, opening of the old one
+            bad(o, &mut r, "ctcmt.joint.commitment-is-ciphertext", "ctcmt", f.wit(), 3);
+        }
         let f = cap_below(&mut r, 2, 5, 9);
         good(o, &mut r, "cap.ok-below", "cap", f.wit(), 10);
         let f = cap_at(&mut r, 1_000_000, 400, 3, 7);
